@@ -19,7 +19,27 @@ G32 = 10238227357739495823651030575849232062558860180284477541189508159991286009
 Q = (P - 1) >> 32
 
 
+def check_translated_chain(ctx):
+    """The addition chain is the one part of the model produced by a translator (lib/gen_chain.py):
+    regenerate it from the current source and require it to be the chain the theorems were checked on."""
+    import os
+    import gen_chain
+    import vlib
+    try:
+        txt = gen_chain.generate(vlib.REPO)
+    except SystemExit as e:
+        txt = "(* translator failed: %s *)" % e
+    cur = open(os.path.join(vlib.COQ, "Model", "SqrtChain.v")).read()
+    ctx.extra["chain_translated_from_source"] = (txt.strip() == cur.strip())
+    if txt.strip() != cur.strip() and ctx.proof is not None:
+        ctx.proof["ok"] = False
+        ctx.proof["log"] = ("the addition chain translated from bandersnatch/fp/sqrt.go differs from coq/Model/SqrtChain.v, "
+                            "on which C17_chain_exponents / C17_relevant_powers were checked\n") + ctx.proof.get("log", "")
+        ctx.mult = 3
+
+
 def run(ctx):
+    check_translated_chain(ctx)
     rng = ctx.rng
     lines, cls = [], []
     nonres = 5
